@@ -18,6 +18,8 @@ visibility of writes, the race detector) is decided by the schedule corresponden
 import Klev.Gen.Facts
 import Klev.Proofs.ConcProofs
 import Klev.Proofs.ConcRefines
+import Klev.Proofs.HeadReadProofs
+import Klev.Proofs.HeadReadModel
 namespace Klev.C08
 open Klev.Conc
 
@@ -95,6 +97,64 @@ theorem delete_refines (l : Log) (hinv : Klev.Inv l) (hrw : l.opts.readonly = fa
       (Conc.toVis (abs (l.delete offs).1), .deleted del) :=
   Klev.Conc.delete_refines l hinv hrw offs del size h
 
+/-! ### reads of the head while publishes land
+
+The read lock keeps rollovers and deletes out of a read call, not the appends to the head
+(they happen under the writer lock). A read that looks at the head's index once is atomic at
+that look (`Consume`: one snapshot; `Get`, `GetByKey`, `GetByTime`: one look, then records at
+positions of an append-only file). `ConsumeByKey` looks twice; the order of the two looks in
+the source is the regenerated fact `consumeByKeyNextFirst` in `source_facts`. -/
+
+open Klev.HeadRead in
+/-- **`ConsumeByKey` with the next offset read first is linearizable**: whatever publishes land
+between its two looks, it returns what a sequential `ConsumeByKey` returns in the state of the
+first look or in the state of the second. -/
+theorem consumeByKey_two_looks (a b : Head) (g : Grows a b) (key : List UInt8) (off : Int) (max : Nat) :
+    nextFirst a b key off max = spec a key off max ∨ nextFirst a b key off max = spec b key off max :=
+  Klev.HeadRead.nextFirst_linearizable a b g key off max
+
+open Klev.HeadRead in
+/-- … and a reader never sees a gap: every message with the key that is in the head at the second
+look or at any later time, at or after the requested offset and below the returned next offset,
+is among the returned ones — iterating by key visits every message with the key. -/
+theorem consumeByKey_no_skip (a b c : Head) (g : Grows a b) (g2 : Grows b c) (hb : b.OK)
+    (hs : c.recs.Pairwise (fun x y => x.off < y.off))
+    (key : List UInt8) (off : Int) (max : Nat) (hmax : 0 < max) :
+    ∀ m ∈ c.recs, m.key = key → off ≤ m.off → m.off < (nextFirst a b key off max).1 →
+      m ∈ (nextFirst a b key off max).2 :=
+  Klev.HeadRead.nextFirst_no_skip a b c g g2 hb hs key off max hmax
+
+open Klev.HeadRead in
+/-- The sequential answer on the head is one the L0 relation of C09 accepts. -/
+theorem consumeByKey_spec_l0 (h : Head) (key : List UInt8) (off : Int) (max : Nat) (hmax : 0 < max)
+    (hoff : off ≠ Klev.offsetNewest) (hle : off ≤ h.next) :
+    Klev.Spec.ConsumeByKeyOK true (Klev.Spec.mk h.recs h.next) key off max (.ok (spec h key off max)) :=
+  Klev.HeadRead.spec_l0 h key off max hmax hoff hle
+
+open Klev.HeadRead in
+/-- The two-look read *is* the modelled `reader.ConsumeByKey` (the function the C09 theorems and the
+correspondence are about) when its context carries the next offset of an earlier state of the head
+than the records and index it reads: the theorems above are theorems about the modelled function. -/
+theorem consumeByKey_model_is_two_looks (c : RCtx) (s : Seg) (its : List Item) (key : List UInt8)
+    (off mc : Int) (hit : ItemsFor s.ver s.recs its) (hk : KeysFor s.recs its)
+    (hn : off ≠ Klev.offsetNewest) (bnext : Int) :
+    readerConsumeByKey c s its key off mc =
+      .ok (nextFirst ⟨[], c.nextOff⟩ ⟨s.recs, bnext⟩ key off (keyLim mc 0)) :=
+  Klev.HeadRead.readerConsumeByKey_two_looks c s its key off mc hit hk hn bnext
+
+open Klev.HeadRead in
+/-- **The other order (defect D22, repaired) is neither**: keys first on an empty head, one
+publish with the key, then the next offset: `(1, [])` is the sequential answer in neither state
+and steps over the message at offset 0. (Replayed on the real code by the sched profile: the
+reverse patch `seeded/revert-D22`.) -/
+theorem consumeByKey_other_order_counterexample :
+    Grows dA dB ∧ dA.OK ∧ dB.OK ∧
+    keysFirst dA dB [1] 0 3 = (1, []) ∧
+    keysFirst dA dB [1] 0 3 ≠ spec dA [1] 0 3 ∧ keysFirst dA dB [1] 0 3 ≠ spec dB [1] 0 3 ∧
+    (∃ m ∈ dB.recs, m.key = [1] ∧ 0 ≤ m.off ∧ m.off < (keysFirst dA dB [1] 0 3).1 ∧
+      m ∉ (keysFirst dA dB [1] 0 3).2) :=
+  Klev.HeadRead.keysFirst_counterexample
+
 end Klev.C08
 
 /-! ### Non-vacuity
@@ -104,6 +164,20 @@ visible state `[m0, m1]`, thread 0 publishes two messages, thread 1 deletes offs
 reads; the schedule interleaves them (the Delete's swap waits for the writer lock). -/
 section NonVacuity
 open Klev.Conc Klev.Conc.Ex
+
+-- two looks with a publish of the key in between: the source order returns the new message
+example : Klev.HeadRead.nextFirst Klev.HeadRead.dA Klev.HeadRead.dB [1] 0 3 = (1, [⟨0, 5, [1], [2]⟩]) := by decide
+example := Klev.C08.consumeByKey_two_looks _ _ Klev.HeadRead.d_grows [1] 0 3
+example := Klev.C08.consumeByKey_no_skip _ _ _ Klev.HeadRead.d_grows
+  (⟨⟨[], by simp, by intro m hm; cases hm⟩, Int.le_refl _⟩ : Klev.HeadRead.Grows Klev.HeadRead.dB Klev.HeadRead.dB)
+  (by intro m hm; simp [Klev.HeadRead.dB] at hm; subst hm; decide) (by simp [Klev.HeadRead.dB]) [1] 0 3 (by decide)
+example := Klev.C08.consumeByKey_spec_l0 Klev.HeadRead.dB [1] 0 3 (by decide) (by decide) (by decide)
+-- the modelled reader function on a head of three records (index derived with keys), context next offset 2 of an
+-- earlier state: it is the two-look read
+example := Klev.C08.consumeByKey_model_is_two_looks ⟨true, 2⟩
+  ⟨0, .v2, [⟨0, 5, [1], [2]⟩, ⟨1, 6, [3], []⟩, ⟨2, 7, [1], [4]⟩], none, none⟩
+  (Klev.derive ⟨true, true⟩ .v2 [⟨0, 5, [1], [2]⟩, ⟨1, 6, [3], []⟩, ⟨2, 7, [1], [4]⟩]) [1] 0 3
+  (Klev.derive_itemsFor _ _ _) (Klev.derive_keysFor _ _ _ rfl) (by decide) 3
 
 example : Fresh ths := by unfold Fresh; decide
 example := Klev.C08.linearizable v0 ths (by unfold Fresh; decide) sched
@@ -133,3 +207,8 @@ end NonVacuity
 #print axioms Klev.C08.writer_exclusive
 #print axioms Klev.C08.publish_refines
 #print axioms Klev.C08.delete_refines
+#print axioms Klev.C08.consumeByKey_two_looks
+#print axioms Klev.C08.consumeByKey_no_skip
+#print axioms Klev.C08.consumeByKey_spec_l0
+#print axioms Klev.C08.consumeByKey_model_is_two_looks
+#print axioms Klev.C08.consumeByKey_other_order_counterexample
